@@ -1,5 +1,7 @@
 """Community detection via clustering of Laplacian eigenvectors."""
 
+from inspect import signature
+
 import numpy as np
 from scipy.sparse.linalg import eigsh
 
@@ -58,8 +60,13 @@ def spectral_clustering(H, k=2, max_iter=1_000, seed=None):
     # Compute normalize Laplacian and its spectra
     L, rowdict = normalized_hypergraph_laplacian(H, index=True)
     # seed the start vector too, otherwise eigsh draws an unseeded one
-    v0 = np.random.default_rng(seed=seed).random(L.shape[0])
-    evals, eigs = eigsh(L, k=k, which="SA", v0=v0)
+    rng = np.random.default_rng(seed=seed)
+    eigsh_kwargs = {"v0": rng.random(L.shape[0])}
+    if "rng" in signature(eigsh).parameters:
+        # with repeated eigenvalues ARPACK restarts from a random vector, which
+        # newer scipy versions draw from this generator
+        eigsh_kwargs["rng"] = rng
+    evals, eigs = eigsh(L, k=k, which="SA", **eigsh_kwargs)
 
     # Form metric space representation
     X = np.array(eigs)
